@@ -206,8 +206,9 @@ def annotate(src, n, canary):
                     if t[0] != el0 && old(self).map@.contains_key(t[0]) { assert(self.map@[t[0]] == old(self).map@[t[0]]); }
                 }
             }
-            assert forall|k: u32| #[trigger] self.map@.contains_key(k) implies self.map@[k].wf() && nonempty(self.map@[k]@) by {
-                if k != el0 { assert(old(self).map@.contains_key(k) && self.map@[k] == old(self).map@[k]); }
+            // subtrees under other keys are untouched; what holds under el0 is decided by the postcondition
+            assert forall|k: u32| #[trigger] self.map@.contains_key(k) && k != el0 implies self.map@[k].wf() && nonempty(self.map@[k]@) by {
+                assert(old(self).map@.contains_key(k) && self.map@[k] == old(self).map@[k]);
             }
         }''' % N)
     S(F('contains'), C_CONTAINS, ARGS).closure('|tree|', '|tree: &%s| -> (cr: bool)' % CH, 'requires tree.wf(), ensures cr == tree@.contains(%s@),' % REST)
@@ -219,8 +220,8 @@ def annotate(src, n, canary):
                     if t[0] != el0 && old(self).map@.contains_key(t[0]) { assert(self.map@.contains_key(t[0]) && self.map@[t[0]] == old(self).map@[t[0]]); }
                 }
             }
-            assert forall|k: u32| #[trigger] self.map@.contains_key(k) implies self.map@[k].wf() && nonempty(self.map@[k]@) by {
-                if k != el0 { assert(old(self).map@.contains_key(k) && self.map@[k] == old(self).map@[k]); }
+            assert forall|k: u32| #[trigger] self.map@.contains_key(k) && k != el0 implies self.map@[k].wf() && nonempty(self.map@[k]@) by {
+                assert(old(self).map@.contains_key(k) && self.map@[k] == old(self).map@[k]);
             }
         }''' % N)
     S(F('is_empty'), C_IS_EMPTY, '''proof {
